@@ -91,7 +91,7 @@ def run(batch, n_runs):
             batch.harness_errors.append(r['_harness_error']); continue
         if r['status'] != 'ok':
             batch.discard('cache:' + str(r.get('reason'))); continue
-        digests.append([i, r.get('class')])
+        digests.append([i, r.get('class'), r['hh'], core.digest(r['stats'])[:16]])      # run content + everything observed
         hashes.add(r['hh'])
         states[r['state']] = states.get(r['state'], 0) + 1
         lifetimes += r['stats']['lifetimes']; crashes += r['stats']['crashes']
